@@ -81,3 +81,21 @@ package criteria_concealment
 //@   ensures [parameters_extended] model.coversAll(*listener, result.DMP.MethodParameters, result.DMP.Criteria) && model.validParams(*listener, result.DMP.MethodParameters)
 //@   ensures [report] typeis(result.Props, CriteriaConcealmentResult) && len(result.Props.(CriteriaConcealmentResult).AddedCriteria) == 1
 //@             && result.Props.(CriteriaConcealmentResult).AddedCriteria[0].Id == result.DMP.Criteria[len(current.Criteria)].Id
+
+// the registered object holds exactly the collaborators it was built with, each in its own role
+//@ func NewCriteriaConcealment
+//@   property C18 C09 C20
+//@   nopanic
+//@   ensures [wired_as_given] result != nil && fresh(result) && result.generatorSource == generatorSource && result.referenceCriterionManager == referenceCriterionManager
+
+// ---- wire format: the JSON names under which requests are read and responses are written (struct tags; encoding/json
+// itself is outside the verified code).  A renamed or omitempty field changes what a client sees without changing any Go value.
+//@ wire CriteriaConcealmentParams
+//@   property C01 C18 C20
+//@   json RandomSeed=randomSeed NewCriterionScaling=newCriterionScaling
+//@ wire CriteriaConcealmentResult
+//@   property C01 C18 C20
+//@   json AddedCriteria=addedCriteria
+//@ wire AddedCriterion
+//@   property C01 C07 C18 C20
+//@   json Id=id Type=type ValuesRange=valuesRange AlternativesValues=alternativesValues MethodParameters=methodParameters
